@@ -44,7 +44,7 @@ def runPackets : Rx Pkg → RxOut → List String → Option (Rx Pkg × RxOut)
   | rx, o, [] => some (rx, o)
   | rx, o, t :: ts =>
     match t.splitOn ":" with
-    | ["h", ty] =>
+    | ["H", ty] | ["h", ty] =>   -- H: header-only packet with the EOM status; it is not queued, so the status is irrelevant
       match ty.toNat? with
       | some ty =>
         let (rx', ev) := rx.writeHeaderOnly ops { msgType := ty, length := 8 }
